@@ -1,3 +1,8 @@
 -- root of the `Enc` library: every property module (which pull in models, specs, lemmas)
 import Enc.Props.C20
+import Enc.Props.C03
+import Enc.Props.C07
+import Enc.Props.C12
+import Enc.Props.C16
 import Enc.Driver.Ascii
+import Enc.Driver.Proto
